@@ -390,6 +390,17 @@ let run_av (suite : string) (vf : string) (auth : string) (cc : string) : string
   let cvc = (cstat = PDone && vf = "1") and svc = (sstat = PDone && a >= 3 && cc = "1") in
   Printf.sprintf "%s %s %d %d" (show_pstat cstat) (show_pstat sstat) (if cvc then 1 else 0) (if svc then 1 else 0)
 
+(* AH: two connections of one client configuration; the models have no state shared between connections, so the second
+   connection is judged on its own *)
+let run_ah (suite : string) (scenario : string) : string =
+  let cfgs = "cc=0,cr=0" in
+  let (a1, a2) = match scenario with
+    | "ca_inject" -> ("skx_junk", "untrusted")
+    | "ca_inject_ok_first" -> ("threecerts", "untrusted")
+    | "untrusted_only" -> ("honest", "untrusted")
+    | _ -> ("honest", "honest") in
+  run_as_gm suite a1 cfgs ^ " " ^ run_as_gm suite a2 cfgs
+
 (* man in the middle between the two honest models: one field of one message rewritten *)
 let hs_type = function
   | "CH" -> 1 | "SH" -> 2 | "CERT" | "CCERT" -> 11 | "SKX" -> 12 | "CR" -> 13 | "SHD" -> 14 | "CV" -> 15 | "CKX" -> 16
@@ -692,6 +703,7 @@ let handle (f : string array) : string =
   | "AC" -> run_ac f.(2) f.(3) f.(4)
   | "AM" -> run_am f.(2) f.(3) f.(4) f.(5) f.(6) f.(8)
   | "AV" -> run_av f.(2) f.(3) f.(4) f.(5)
+  | "AH" -> run_ah f.(2) f.(3)
   | "PA" -> run_pa f.(2) f.(3) f.(4) f.(5)
   | "PD" -> run_pd f
   | "PE" -> run_pe f
